@@ -221,6 +221,11 @@ func checkMain(args []string) {
 		var keep []*Obligation
 		for _, o := range r.Obligations {
 			ok := len(o.Props) == 0 && !r.TaggedOnly
+			if len(o.Props) == 0 && r.TaggedOnly && (o.Kind == "inv-entry" || o.Kind == "inv-preserved") {
+				// an untagged loop invariant is assumed after the loop on every path: what is proved from it
+				// for this property needs it established here too
+				ok = true
+			}
 			for _, p := range o.Props {
 				if p == prop {
 					ok = true
